@@ -4,7 +4,7 @@ C13 - fixed-width reading is lossless and aligned.
 import ast
 
 from ..absint import AbsRaise, AText, Frame, FuncRef, GenVal, Interp, Obj, Undecided, exc_name
-from ..model import walk_own
+from ..model import dotted, walk_own
 from ..tablekit import decide, stub, where_of
 
 EXPLANATION = (
@@ -245,43 +245,26 @@ def rule_fixed_rows(ctx):
 
 
 def rule_structure(ctx):
+    """O13.4: every raise in fixed_rows (and its nested automaton) is a DataFormatError that is given a location."""
     model = ctx.model
     info = model.func(FIXED_ROWS)
-    ctx.res.minimum("O13.1", 1)
     ctx.res.minimum("O13.4", 1)
-    # O13.1: the only row.append(item) is control-dependent on len(item) == field_length
-    appends = [n for n in walk_own(info.node) if isinstance(n, ast.Call) and isinstance(n.func, ast.Attribute)
-               and n.func.attr == "append" and isinstance(n.func.value, ast.Name) and n.func.value.id == "row"]
-    problems = []
-    if len(appends) != 1:
-        problems.append("expected exactly one row.append, found %d" % len(appends))
-    else:
-        guard = None
-        current = model.parent(appends[0])
-        while current is not None and current is not info.node:
-            if isinstance(current, ast.If):
-                guard = current
-                break
-            current = model.parent(current)
-        text = ast.unparse(guard.test) if guard is not None else ""
-        if "==" not in text or "field_length" not in text or "len" not in text and "item_length" not in text:
-            problems.append("row.append is not guarded by a test that the item has exactly the field's width (guard: %r)" % text)
-    if problems:
-        ctx.res.fail("O13.1", "items are appended only at full width", "rowio.fixed_rows:O13.1:append", where_of(model, FIXED_ROWS), "; ".join(problems))
-    else:
-        ctx.res.ok("O13.1", "the only row.append(item) is guarded by 'item length == field length'", True)
-    # O13.4: every raise in fixed_rows (and its nested function) is a DataFormatError carrying the location
     raises = [n for n in ast.walk(info.node) if isinstance(n, ast.Raise)]
     bad = []
     for node in raises:
-        if not (isinstance(node.exc, ast.Call) and ast.unparse(node.exc.func).endswith("DataFormatError")
-                and len(node.exc.args) >= 2 and ast.unparse(node.exc.args[1]) == "location"):
+        call = node.exc if isinstance(node.exc, ast.Call) else None
+        class_ok = call is not None and (dotted(call.func) or "").endswith("DataFormatError")
+        location = None
+        if call is not None:
+            location = call.args[1] if len(call.args) >= 2 else next((k.value for k in call.keywords if k.arg == "location"), None)
+        located = location is not None and not (isinstance(location, ast.Constant) and location.value is None)
+        if not (class_ok and located):
             bad.append(node.lineno)
     if bad or len(raises) < 4:
         ctx.res.fail("O13.4", "raises are located DataFormatErrors", "rowio.fixed_rows:O13.4:raises", where_of(model, FIXED_ROWS),
-                     "raise statements at lines %s are not errors.DataFormatError(message, location) (found %d raises)" % (bad, len(raises)))
+                     "raise statements at lines %s are not DataFormatError(message, <location>) (found %d raises)" % (bad, len(raises)))
     else:
-        ctx.res.ok("O13.4", "all %d raise statements of fixed_rows are DataFormatError(message, location)" % len(raises), True)
+        ctx.res.ok("O13.4", "all %d raise statements of fixed_rows are DataFormatError(message, <location>)" % len(raises), True)
 
 
 RULES = [rule_fixed_rows, rule_structure]
